@@ -173,6 +173,29 @@ QueryLoop(q, stack, acc, fuel) ==
 Query(q) == IF EmptyGuard /\ root = NONE THEN <<>>
             ELSE QueryLoop(q, <<root>>, <<>>, 2 * Len(nodes) + 2)
 
+(* ---------------- compiled level: query_overlap_of_other_tree, with the tree queried against ITSELF ----------------
+   The traversal walks tree 2 with a LIFO stack; a branch is descended when query_overlap(its box, tree 1,
+   break_at_first_leaf) finds a leaf (the early break only truncates the result, so "found one" = Query(box) # <<>>);
+   a leaf contributes the pairs <<leaf of tree 1, itself>> for every leaf Query returns.  Result: sequence of pairs. *)
+RECURSIVE TreeLoop(_, _, _)
+BadPairs == <<<<OOBRES, OOBRES>>>>                       \* marker: an index outside the arrays / no termination
+TreeLoop(stack, acc, fuel) ==
+  IF stack = <<>> THEN acc
+  ELSE IF fuel = 0 THEN BadPairs
+  ELSE
+  LET i    == stack[Len(stack)]
+      rest == SubSeq(stack, 1, Len(stack) - 1)
+  IN  IF ~InDom(boxes, i) \/ ~InDom(nodes, i) THEN BadPairs
+      ELSE LET ov == Query(At(boxes, i)) IN
+           IF Len(ov) = 1 /\ ov[1] < 0 THEN BadPairs
+           ELSE IF At(nodes, i).t = BRANCH
+                THEN IF Len(ov) >= 1 THEN TreeLoop(rest \o <<At(nodes, i).l, At(nodes, i).r>>, acc, fuel - 1)
+                     ELSE TreeLoop(rest, acc, fuel - 1)
+                ELSE IF At(nodes, i).t = LEAF
+                     THEN TreeLoop(rest, acc \o [k \in DOMAIN ov |-> <<ov[k], i>>], fuel - 1)
+                     ELSE TreeLoop(rest, acc, fuel - 1)
+SelfTreeQuery == IF EmptyGuard /\ root = NONE THEN <<>> ELSE TreeLoop(<<root>>, <<>>, 2 * Len(nodes) + 2)
+
 AsResult(idx) == [k \in DOMAIN idx |-> [ins |-> At(ins, idx[k]), data |-> At(ext, idx[k])]]
 
 (* ---------------- next-state relation ---------------- *)
@@ -201,6 +224,16 @@ QueriesExact ==
       /\ idx # <<OOBRES>> /\ idx # <<LOOPRES>>
       /\ LET r == AsResult(idx) IN
          /\ NoneMissing(q, r) /\ NoneSpurious(q, r) /\ NoneDuplicated(r) /\ PayloadMaps(r)
+
+(* tree-vs-tree query of the tree against itself: exactly the overlapping leaf pairs, each once *)
+TreeQueryExact ==
+  Quiescent =>
+    LET pr == SelfTreeQuery IN
+    /\ pr # BadPairs
+    /\ LET L == { i \in 0..(Len(nodes) - 1) : At(nodes, i).t = LEAF }
+           S == { pr[k] : k \in DOMAIN pr }
+       IN /\ S = { <<i, j>> \in L \X L : ClosedOverlap(At(boxes, i), At(boxes, j)) }
+          /\ Cardinality(S) = Len(pr)
 
 (* structural well-formedness: mutual links, every stored box reachable, branch
    box = union of its children, exactly 2n-1 nodes *)
